@@ -77,6 +77,11 @@ impl Sub for Duplicates {
         }
         continue;
       }
+      if b.unusable_key && b.result.is_err() {
+        // no key was repeated and the private key cannot sign: the build fails for that reason, which is not judged here
+        cl.tag("unusable-key:refused");
+        continue;
+      }
       if b.exp_after_ack {
         // latitude: refused as a duplicate of exp, or built without exp
         match &b.result {
@@ -123,6 +128,8 @@ fn random_op() -> BoxedStrategy<BOp> {
     4 => (any::<u16>(), 0usize..1000).prop_map(|(i, n)| BOp::Set(ClaimSpec::Custom(NEAR_KEYS[pick(i, NEAR_KEYS.len())].to_string(), json!(n)))),
     1 => (0u8..3, 0usize..1000).prop_map(|(t, n)| BOp::Set(ClaimSpec::CustomOwned(long_key(t), json!(n)))),
     2 => Just(BOp::Ack),
+    1 => Just(BOp::BuildWithUnusableKey),
+    1 => Just(BOp::OtherBuildersFail),
     1 => gen::jsonish(6).prop_map(BOp::Footer),
     1 => gen::jsonish(6).prop_map(BOp::Assertion),
     4 => Just(BOp::Build),
